@@ -50,16 +50,23 @@ def translations(r):
         out.append(([x / n * ratio * SIZE for x in d], ratio))
     # straddle the origin: the tissue sits around 0 in the reference; move it by a fraction of its size in -x
     out.append(([-0.37 * SIZE, 0.21 * SIZE, -0.11 * SIZE], 0.44))
+    # far away (1 m for cells of 10 um): possible since the volume determinants are centred on a node of the cell
+    # (measured deviation 6e-16 * r sizes after 80 iterations, r up to 1e6)
+    d = [r.normal() for _ in range(3)]
+    n = math.sqrt(sum(x * x for x in d))
+    out.append(([x / n * 1e5 * SIZE for x in d], 1e5))
     return out
 
 
 def tol_rel(ratio, iters):
     """allowed deviation of a node position relative to the cell size: rounding of (p+t) and of the differences, amplified
-    by the cancellation of the volume determinants far from the origin (C12) and by the number of iterations"""
+    by the number of iterations.  (Until fixes/C12-centred-volume.diff there was a third term 5*eps*r^3 per iteration for the
+    cancellation of the un-centred volume determinants far from the origin: measured then 4.8e-8 sizes at r = 1e3 after 40-80
+    iterations, now 6e-13; 1e-12 -> 1.7e-14 at r = 30.)"""
     eps = 2.2e-16
     # base: the tissue itself sits up to ~10 sizes from the origin, so even r = 0 has rounding of that order, amplified by
     # the stiff contact / pressure terms over the iterations (measured: 4e-10 sizes after 300 iterations)
-    return 1e-8 + iters * (20 * eps * (ratio + 10) + 5 * eps * ratio ** 3)
+    return 1e-8 + iters * 20 * eps * (ratio + 10)
 
 
 def compare(ref, tr, t, ratio, iters):
@@ -169,7 +176,7 @@ def run(ctx):
         ref = SC.parse_states(ref_run["out"])
         trs = translations(r)
         if not wide:
-            trs = [trs[0], trs[2], trs[4]] if kind in ("single", "adhering") else [trs[1], trs[3]]
+            trs = [trs[0], trs[2], trs[4], trs[5]] if kind in ("single", "adhering") else [trs[1], trs[3], trs[5]]
         for (t, ratio) in trs:
             with SC.Workdir() as wd:
                 mesh = make_tissue(wd, r, kind, t)
@@ -199,14 +206,14 @@ def run(ctx):
         "trusted_base": vlib.TRUSTED_COMMON + [
             "the stages are assembled into one executable model of solver::run_iteration for a single free cell AND for tissues of interacting epithelial cells (contact search on the re-anchored grid, coupling pass, polarisation, node normals, forces, integrator), bit-identical to the real solver (1 thread) while no cell divides / is removed and all edges stay in the refinement band; tissueRun_translate / tissueRun_observables / domain_translate proved for all such tissues with closed meshes (hypotheses TissueSetup, Wf evaluated on every instance); outside that domain (remeshing, division, removal) only the stage theorems + the two-run oracle; the loops and bindings of Model/Tissue.lean are tied to the code by the differential run (single-thread search order), its arithmetic is Gen.*",
             "the single free cell is also modelled THROUGH remeshing: refine_mesh (splits, collapses, swaps) and the rebase of save_mesh are steps of the assembled model (Model/PipelineR.lean on C01's Remesh.Cell), bit-identical to the real solver incl. slot numbering, edge index and free queues; refineMesh_translate / cellRunR_translate / cellRunR_observables / domainR_translate proved for every cell state on which the decidable hypotheses refineLive (no released node slot is read: node::reset writes the absolute position (0,0,0) there; evaluated on every executed pass, never false) and meshOk hold; outside: division, removal, more than one cell with remeshing, OpenMP order, rounding",
-            "rounding is run-time only: allowed deviation per node = size*(1e-8 + iters*(20 eps (r+10) + 5 eps r^3)), r = offset/size <= 1e3 (the r^3 term is the cancellation of the volume determinants far from the origin)"],
+            "rounding is run-time only: allowed deviation per node = size*(1e-8 + iters*20 eps (r+10)), r = offset/size <= 1e5 (linear in r: the coordinates carry the shape to r*eps; no cubic term since the volume determinants are centred on a node of the cell)"],
         "theorems": dict(list(proof["axioms"].items()) + list(proofP["axioms"].items()) + list(proofT["axioms"].items()) + list(proofR["axioms"].items())),
         "proof_failures": proof["failures"] + proofP["failures"] + proofT["failures"] + proofR["failures"],
         "assembled_tissue_iteration": tissue,
         "assembled_iteration_with_remeshing": remesh,
         "assembled_single_cell_iteration": pipe.get("stats"), "translator": {k: v.get("sha256", v.get("error")) for k, v in gen.items()},
         "evaluations": evaluations + tissue.get("oracle_runs", 0) + len(tissue.get("scenarios", [])) + remesh.get("oracle_runs", 0) + len(remesh.get("scenarios", [])), "distinct_nontrivial": len(distinct),
-        "rule": "pairs of real solver runs (generated tissues: single cell, separated, adhering, overlapping cells of mixed types; 40-300 iterations, deterministic parameters) that differ by a translation of the input file (offset/size 1e-2 .. 1e3, random directions, one straddling the origin); distinct = distinct (tissue, offset ratio, swap flag)",
+        "rule": "pairs of real solver runs (generated tissues: single cell, separated, adhering, overlapping cells of mixed types; 40-300 iterations, deterministic parameters) that differ by a translation of the input file (offset/size 1e-2 .. 1e3 and 1e5, random directions, one straddling the origin); distinct = distinct (tissue, offset ratio, swap flag)",
         "worst_deviation_over_size_by_ratio": worst_by_ratio, "late_connectivity_divergences_after_iteration_%d" % STRICT_ITERS: late_divergences, "repo_objects_rebuilt": rebuilt, "samples": samples,
     }
     vlib.write_evidence(PID, tier, "proof", cov, ["deterministic parameter sets; contact model 1, dynamic model 0 (default build)"], time.time() - t0, nviol)
